@@ -3,7 +3,7 @@
 
   * `EncFields d b`: the byte string b is a sequence of ≥ 1 well-formed encoded fields
     (type byte ≠ STOP, 2-byte id, one value of that type), values of nesting ≤ d (leaves included),
-    booleans canonical (0 or 1). The grammar is Spec/Grammar's (`refStr`, `refN`, `refKV`, `refFields`,
+    booleans canonical (0 or 1). The grammar is Spec/Grammar's (`layer`: `refStr`, `refN`, `refKV`, `refFields`,
     `fixedSize`); `encLen` is `refLen` with the one extra requirement on BOOL bytes
     (`encLen_refLen` in Lemmas/UnknownEnc: every `encLen` value is a `refLen` value of the same extent).
   * `WT d f`: the tree f is well typed: the payload has the dynamic type its `Type` demands, children of
@@ -25,25 +25,7 @@ def encLen : Nat → UInt8 → Bytes → Option Nat
       match b with
       | x :: _ => if x = 0 ∨ x = 1 then some 1 else none
       | [] => none
-    else if fixedSize t > 0 then
-      if fixedSize t ≤ b.length then some (fixedSize t) else none
-    else if t = TT.STRING then refStr b
-    else if t = TT.STRUCT then refFields (encLen d) (b.length + 1) b
-    else if t = TT.LIST ∨ t = TT.SET then
-      match b with
-      | et :: rest =>
-        if 4 ≤ rest.length ∧ rd32 rest < 2147483648 then
-          (refN (encLen d et) (rd32 rest) (rest.drop 4)).map (5 + ·)
-        else none
-      | [] => none
-    else if t = TT.MAP then
-      match b with
-      | kt :: vt :: rest =>
-        if 4 ≤ rest.length ∧ rd32 rest < 2147483648 then
-          (refKV (encLen d kt) (encLen d vt) (rd32 rest) (rest.drop 4)).map (6 + ·)
-        else none
-      | _ => none
-    else none
+    else layer (encLen d) t b          -- Spec/Grammar: one level of the Thrift Binary value grammar
 
 /-- fields in a row until the input is exhausted: (type ≠ 0, 2-byte id, value)* ; fuel ≥ b.length + 1 suffices -/
 def encSeq (f : UInt8 → Bytes → Option Nat) : Nat → Bytes → Bool
@@ -60,9 +42,11 @@ def encSeq (f : UInt8 → Bytes → Option Nat) : Nat → Bytes → Bool
         | some k => encSeq f fuel (rest.drop (2 + k))
 
 /-- b is a sequence of at least one well-formed field with canonical bools, values of nesting ≤ d -/
-def encFields (d : Nat) (b : Bytes) : Bool := b ≠ [] && encSeq (encLen d) (b.length + 1) b
+def ufEncFields (d : Nat) (b : Bytes) : Bool := b ≠ [] && encSeq (encLen d) (b.length + 1) b
 
-def EncFields (d : Nat) (b : Bytes) : Prop := encFields d b = true
+def EncFields (d : Nat) (b : Bytes) : Prop := ufEncFields d b = true
+
+instance (d : Nat) (b : Bytes) : Decidable (EncFields d b) := inferInstanceAs (Decidable (_ = true))
 
 /-! ## well-typed trees -/
 
@@ -72,12 +56,12 @@ def elemsOK {α : Type} (mt : α → UMeta) (p : α → Bool) (t : UInt8) : Nat 
   | i, c :: cs => (mt c).id == UInt16.ofNat i && (mt c).typ == t && p c && elemsOK mt p t (i + 1) cs
 
 /-- flat key,value,key,value children of a MAP: pair i has ids int16(i), types kt and vt -/
-def kvsOK {α : Type} (mt : α → UMeta) (p : α → Bool) (kt vt : UInt8) : Nat → List α → Bool
+def ufKvsOK {α : Type} (mt : α → UMeta) (p : α → Bool) (kt vt : UInt8) : Nat → List α → Bool
   | _, [] => true
   | _, [_] => false
   | i, k :: v :: rest =>
     (mt k).id == UInt16.ofNat i && (mt k).typ == kt && p k &&
-    (mt v).id == UInt16.ofNat i && (mt v).typ == vt && p v && kvsOK mt p kt vt (i + 1) rest
+    (mt v).id == UInt16.ofNat i && (mt v).typ == vt && p v && ufKvsOK mt p kt vt (i + 1) rest
 
 def wt : (d : Nat) → UF d → Bool
   | 0, f => f.elim
@@ -98,7 +82,7 @@ def wt : (d : Nat) → UF d → Bool
        | _ => false)
     else if t = TT.MAP then
       (match f.2 with
-       | .fields kvs => decide (kvs.length / 2 < 4294967296) && kvsOK (ufMeta d) (wt d) f.1.kt f.1.vt 0 kvs
+       | .fields kvs => decide (kvs.length / 2 < 4294967296) && ufKvsOK (ufMeta d) (wt d) f.1.kt f.1.vt 0 kvs
        | _ => false)
     else if t = TT.STRUCT then
       f.1.kt == 0 && f.1.vt == 0 && (match f.2 with | .fields fs => fs.all (wt d) | _ => false)
@@ -106,9 +90,13 @@ def wt : (d : Nat) → UF d → Bool
 
 def WT (d : Nat) (f : UF d) : Prop := wt d f = true
 
+instance (d : Nat) (f : UF d) : Decidable (WT d f) := inferInstanceAs (Decidable (_ = true))
+
 /-- a well-typed sequence of ≥ 1 top-level fields (any ids) -/
 def wts (d : Nat) (fs : List (UF d)) : Bool := fs ≠ [] && fs.all (wt d)
 
 def WTs (d : Nat) (fs : List (UF d)) : Prop := wts d fs = true
+
+instance (d : Nat) (fs : List (UF d)) : Decidable (WTs d fs) := inferInstanceAs (Decidable (_ = true))
 
 end Verif
